@@ -516,7 +516,7 @@ theorem ti_unackFinish (h : TI s.timer now) : TI (unackFinish s now).timer now :
   repeat' split
   all_goals ti_gor [ti_finalizeReceive, ti_shutdown]
 theorem ti_unackEof (h : TI s.timer now) (e : Eof) : TI (unackEof s e now).timer now := by
-  simp only [unackEof, unackEofNoError]
+  simp only [unackEof, unackEofNoError, unackComplete, unackCheckMissing]
   repeat' split
   all_goals ti_gor [ti_unackFinish, ti_handleFault, ti_checkFileSize, ti_cancelInner]
 theorem ti_pduArrived (h : TI s.timer now) : TI (pduArrived s now).timer now := by
